@@ -351,7 +351,7 @@ func SendTo(ch interface{}, v interface{}) Case {
 type Case struct {
 	snd     sendable
 	val     interface{}
-	ch      recvable        // shim channel receive
+	ch      recvable // shim channel receive
 	store   func(v interface{}, ok bool)
 	foreign <-chan struct{} // receive from a channel not created by the code under test (ctx.Done())
 	deflt   bool
